@@ -122,6 +122,7 @@ def Inv(p):
     cs.append(("I3:child's-parent", z3.ForAll([a], z3.Implies(z3.And(H(a), f("child", a) != 0), f("parent", f("child", a)) == a))))
     cs.append(("I3:left-sibling's-parent", z3.ForAll([a], z3.Implies(z3.And(H(a), f("left", a) != 0), f("parent", f("left", a)) == pa))))
     cs.append(("I3:right-sibling's-parent", z3.ForAll([a], z3.Implies(z3.And(H(a), f("right", a) != 0), f("parent", f("right", a)) == pa))))
+    cs.append(("I3:parent-of-a-head-has-a-child-pointer", z3.ForAll([a], z3.Implies(z3.And(H(a), pa != 0), f("child", pa) != 0))))
     r = z3.IntVal(128)
     cs.append(("I3:root", z3.Implies(size > 128, z3.And(H(r), f("parent", r) == 0, w.lo(r) == NEG, w.hi(r) == POS))))
     cs.append(("I3:top-level-group-has-the-root", z3.ForAll([a], z3.Implies(z3.And(H(a), pa == 0), a >= 128))))
@@ -367,6 +368,7 @@ class Ensure(Contract):
             for nm, f in self.post(ex, q, q1, res, g, s, gpath0):
                 q1.assume(f)
             N.assume_all(q1, Inv(q1))
+            Wd.prune_dead_world_facts(q1)
             q1.mut += 1
             out.append((q1, res))
         return out
@@ -399,10 +401,194 @@ def havoc_node(name):
     return h
 
 
-# ---------------------------------------------------------------------------- install
+
+
+# ============================================================================ add_lru / add_page / readers
+def snapshot_old(p):
+    for k in list(p.w):
+        if not k.startswith("old:") and not k.startswith("__"):
+            p.w["old:" + k] = p.w[k]
+
+
+def old_view(p):
+    return TW(type("P", (), {"w": {k[4:]: v for k, v in p.w.items() if k.startswith("old:")}})())
+
+
+def writer_frame(p, flag_param):
+    """relative to the state at function entry (old:*): what add_lru may have changed in
+    blocks that existed then"""
+    w0, w1 = old_view(p), TW(p)
+    size0 = w0.p.w["T.size"]
+    a = z3.Int("a")
+    cs = [("frame:size-only-grows", z3.And(p.w["T.size"] >= size0, AL(p.w["T.size"])))]
+    for f in ("stem", "we", "parent", "outl", "inl"):
+        cs.append(("frame:old-blocks[%s]-unchanged" % f, z3.ForAll([a], z3.Implies(a < size0, w1.f(f, a) == w0.f(f, a)))))
+    for k in range(8):
+        if k == NOCHILD:
+            # the pruning mark may only be cleared, and only when asked to
+            cs.append(("frame:old-blocks-pruning-mark-only-cleared", z3.ForAll([a], z3.Implies(z3.And(a < size0, w1.flag(a, k)), w0.flag(a, k)))))
+            if flag_param is not True:
+                fl = to_z3(flag_param)
+                cs.append(("frame:old-blocks-pruning-mark-unchanged-unless-asked", z3.ForAll([a], z3.Implies(z3.And(z3.Not(fl), a < size0), w1.flag(a, k) == w0.flag(a, k)))))
+        else:
+            cs.append(("frame:old-blocks-bit%d-unchanged" % k, z3.ForAll([a], z3.Implies(a < size0, w1.flag(a, k) == w0.flag(a, k)))))
+    for f in ("left", "right", "child"):
+        cs.append(("frame:old-blocks[%s]-only-set-from-0-to-a-new-block" % f, z3.ForAll([a], z3.Implies(a < size0, z3.Or(w1.f(f, a) == w0.f(f, a), z3.And(w0.f(f, a) == 0, w1.f(f, a) >= size0))))))
+    for g in ("rest", "lo", "hi", "path", "ref", "slot"):
+        cs.append(("frame:ghost[%s]-of-old-blocks-unchanged" % g, z3.ForAll([a], z3.Implies(a < size0, z3.Select(p.w["G." + g], a) == z3.Select(w0.p.w["G." + g], a)))))
+    cs.append(("frame:ghost[addr]-of-old-heads-unchanged", z3.ForAll([a], z3.Implies(w0.head(a), z3.Select(p.w["G.addr"], w0.path(a)) == a))))
+    # new heads carry nothing: no page, no webentity, no rule, no links
+    cs.append(("frame:new-heads-are-blank", z3.ForAll([a], z3.Implies(z3.And(w1.head(a), a >= size0), z3.And(w1.f("we", a) == 0, w1.f("outl", a) == 0, w1.f("inl", a) == 0, z3.Not(w1.flag(a, PAGE)), z3.Not(w1.flag(a, CRAWLED)), z3.Not(w1.flag(a, RULE)))))))
+    return cs
+
+
+class LruIter(Contract):
+    """lru_iter(lru): the stems of the LRU, as the abstract sequence QS(0..QL-1) with
+    join = lru.  ASSUMED here (trusted contract, bounded-checked: the splitting loop
+    works on bytes positions); every caller in lru_trie.py only needs the sequence."""
+
+    qual = "lru_iter"
+    trusted = True
+
+    def setups(self, ex):
+        return iter(())
+
+    def seq(self, ex, p, recv, args, kw, ln):
+        return p, SeqView(QL, lambda i: QS(i))
+
+
+def root_like(ex, p, nref, i):
+    """node is the root of the sibling tree whose members spell QP(i) ++ [stem]"""
+    w = TW(p)
+    o = p.obj(nref)
+    exists = to_z3(ex.truth(o.f["exists"], p))
+    b = o.f["block"]
+    if b is None:
+        return [("node-missing-only-in-an-empty-trie", z3.And(z3.Not(exists), i == 0, p.w["T.size"] == 128))]
+    none = b.none if isinstance(b, Opt) else z3.BoolVal(False)
+    bz = b.val if isinstance(b, Opt) else to_z3(b)
+    fresh_cs = [f for nm, f in is_fresh(ex, p, nref, "node")]
+    d = [Wd._coerce(x, srt) for x, srt in zip(node_data(p, nref), Wd.SORTS)]
+    blank = z3.And(z3.Not(exists), i == 0, p.w["T.size"] == 128, to_z3(o.f["tail"]) == bytes_val(b""), d[0] == bytes_val(b""), d[1] == z3.BitVecVal(128, 8), *[d[k] == 0 for k in range(2, 9)])
+    there = z3.And(*(fresh_cs + [w.head(bz), w.lo(bz) == NEG, w.hi(bz) == POS, w.gpath(bz) == QP(i)]))
+    return [("node-is-the-root-of-the-sibling-tree-at-level-i(or-missing-in-an-empty-trie)", z3.Or(blank, there))]
+
+
+def add_lru_inv0(ex, p):
+    w = TW(p)
+    i = to_z3(p.env["i"])
+    flag = p.env["flag_can_have_child_webentities"]
+    cs = Inv(p)
+    cs.append(("i-range", z3.And(i >= 0, z3.Or(i < QL, i == 0))))
+    cs.append(("lru==joined-stems-so-far", to_z3(p.env["lru"]) == PRE(i)))
+    cs += root_like(ex, p, p.env["node"], i)
+    if flag is not False:
+        fl = to_z3(ex.truth(flag, p))
+        b = p.obj(p.env["node"]).f["block"]
+        if b is not None:
+            bz = b.val if isinstance(b, Opt) else to_z3(b)
+            cs.append(("flagging:group-parent-unmarked", z3.Implies(z3.And(fl, i > 0), z3.Not(w.flag(w.f("parent", bz), NOCHILD)))))
+    cs += writer_frame(p, flag)
+    return cs
+
+
+def add_lru_inv1(ex, p):
+    w = TW(p)
+    i = to_z3(p.env["i"])
+    flag = p.env["flag_can_have_child_webentities"]
+    n = p.env["node"]
+    b = node_blk(p, n)
+    cs = Inv(p)
+    cs.append(("i-range", z3.And(i >= 1, i <= QL)))
+    cs += is_fresh(ex, p, n, "node")
+    cs.append(("node-is-the-head-spelling-the-first-i-stems", z3.And(w.head(b), w.path(b) == QP(i))))
+    cs.append(("node-has-no-child-yet", z3.Implies(i < QL, w.f("child", b) == 0)))
+    if flag is not False:
+        fl = to_z3(ex.truth(flag, p))
+        cs.append(("flagging:node-unmarked", z3.Implies(z3.And(fl, i < QL), z3.Not(w.flag(b, NOCHILD)))))
+    cs += writer_frame(p, flag)
+    return cs
+
+
+def havoc_history(ex, p):
+    if "history" in p.env and isinstance(p.env["history"], Ref):
+        o = p.obj(p.env["history"])
+        o.f["webentity"] = Opt(fresh("h_noweb", BOOL), fresh("h_we", INT))
+        o.f["webentity_prefix"] = fresh("h_prefix", BYTES)
+        o.f["webentity_position"] = fresh("h_pos", INT)
+        o.f["webentity_creation_rules"] = p.new_obj("list", {"len": fresh("h_nrules", INT), "elem": z3.Function("h_rule!%d" % id(o), INT, INT), "on_append": _append_rule, "last": fresh("h_lastrule", INT)})
+
+
+def _append_rule(ex, p, o, v):
+    n = o.f["len"]
+    old = o.f["elem"]
+    arr = o.f.get("arr")
+    o.f["len"] = n + 1
+    o.f["last"] = to_z3(v)
+
+
+def havoc_add_lru(ex, p):
+    havoc_node("node")(ex, p)
+    # the node may be the missing root: keep that possibility
+    n = p.env["node"]
+    o = p.obj(n)
+    o.f["exists"] = fresh("node_exists", BOOL)
+    o.f["block"] = Opt(fresh("node_noblock", BOOL), o.f["block"])
+    lst = p.obj(o.f["data"])
+    lst.f["items"] = [fresh("nd_stem", BYTES), fresh("nd_flags", BV8)] + [fresh("nd%d" % k, INT) for k in range(2, 9)]
+    o.f["tail"] = fresh("nd_tail", BYTES)
+    havoc_history(ex, p)
+
+
+def havoc_add_lru1(ex, p):
+    havoc_node("node")(ex, p)
+    havoc_history(ex, p)
+
+
+class AddLru(Contract):
+    qual = "LRUTrie.add_lru"
+
+    def prepare(self, ex):
+        ex.node_write_hooks = [ghost_on_node_write]
+
+    def setups(self, ex):
+        p, w, store, trie = base()
+        lru = fresh("lru", BYTES)
+        p.assume(lru == PRE(QL))
+        snapshot_old(p)
+        flag = fresh("flag", BOOL)
+        p.w["__flag"] = flag
+        yield p, trie, [lru], {"flag_can_have_child_webentities": flag}, flag
+
+    @staticmethod
+    def post(ex, p1, res_ref, flag):
+        w = TW(p1)
+        rb = node_blk(p1, res_ref)
+        cs = list(is_fresh(ex, p1, res_ref))
+        cs.append(("result-is-the-head-spelling-the-lru", z3.Implies(QL >= 1, z3.And(w.head(rb), w.path(rb) == QP(QL)))))
+        if flag is not False:
+            cs.append(("flagging:parent-of-the-result-unmarked", z3.Implies(z3.And(to_z3(flag), QL >= 1, w.f("parent", rb) != 0), z3.Not(w.flag(w.f("parent", rb), NOCHILD)))))
+        cs += writer_frame(p1, flag)
+        return cs
+
+    def check(self, ex, p0, res, flag):
+        for p1, kind, val in res:
+            if kind == "raise":
+                ex.oblige(p1, "raises-nothing(%s)" % val[0], False, val[1])
+                continue
+            if not (isinstance(val, tuple) and len(val) == 2 and isinstance(val[0], Ref)):
+                ex.oblige(p1, "returns-(node,history)", False, None)
+                continue
+            simp_world(p1)
+            # an empty LRU returns the (possibly missing) root: nothing claimed
+            for nm, f in self.post(ex, p1, val[0], flag):
+                ex.oblige(p1, nm, z3.Implies(QL >= 1, f), None)
+            for nm, f in Inv(p1):
+                ex.oblige(p1, "preserves:" + nm, f, None)
+
+
 def install(lib):
     lib.loop_spec("LRUTrie.__ensure_stem_from_siblings::while#0", LoopSpec(ensure_loop_inv, havoc=havoc_node("node")))
-    return [Ensure()]
-
-
-GROUP = "trie"
+    lib.loop_spec("LRUTrie.add_lru::while#0", LoopSpec(add_lru_inv0, havoc=havoc_add_lru, locals_=("i", "lru"), world=TKEYS + GHOSTS, prune=Wd.prune_dead_world_facts))
+    lib.loop_spec("LRUTrie.add_lru::while#1", LoopSpec(add_lru_inv1, havoc=havoc_add_lru1, locals_=("i",), world=TKEYS + GHOSTS, prune=Wd.prune_dead_world_facts))
+    return [LruIter(), Ensure(), AddLru()]
